@@ -622,6 +622,9 @@ class Sym:
                     body = ("attr", el, g[2][0][1].strip("'\""))
                 elif getter == "itemgetter" and len(g[2]) == 1:
                     body = ("sub", el, g[2][0])
+                elif g[:1] == ("attr",) and g[2] == "__getitem__":
+                    # map(d.__getitem__, xs) is (d[x] for x in xs)
+                    body = ("sub", g[1], el)
                 elif g in (("glob", "list"), ("glob", "tuple")) and el[:1] == ("elem",) and is_call_of(el[1], ("glob", "zip")):
                     body = (g[1], tuple(("elem", a) for a in el[1][2]))
                 else:
@@ -635,6 +638,17 @@ class Sym:
                 if len(elems) == 1:
                     el = next(iter(elems))
                     return ("tuple" if f[1] == "tuple" else "list", tuple(_simplify_items(subst(body_t, {el: row})) for row in el[1][1]))
+            # chain(xs, ys, ..) of lists / generators built here is one generator with their contributions in that order
+            if f in (("glob", "chain"), ("attr", ("glob", "itertools"), "chain")) and pos and not kws and "chain" not in self.locals:
+                parts = []
+                for a_ in pos:
+                    c_ = _list_contribs(a_)
+                    if c_ is None and a_[:1] == ("acc",) and a_[1] in ("gen", "list"):
+                        c_ = tuple(a_[2])
+                    if c_ is None and a_[:1] == ("tuple",) and not any(x[:2] == ("uop", "*") for x in a_[1]):
+                        c_ = tuple(("one", (), x) for x in a_[1])
+                    parts.extend(c_ if c_ is not None else (("many", (), a_),))
+                return ("acc", "gen", tuple(parts))
             # list(<generator built here>) is the list with the same contributions
             if f in (("glob", "list"), ("glob", "set")) and len(pos) == 1 and not kws and pos[0][:1] == ("acc",) and pos[0][1] in ("gen", "list", "set"):
                 return ("acc", f[1], pos[0][2])
